@@ -275,6 +275,21 @@ func monC09(w *World) {
 			}
 			count(nd, b, e.PartialCert.Signature())
 		case hotstuff.NewViewMsg:
+			if w.kauri() && !e.FromNetwork && e.ID == 0 {
+				// a certificate completed by a node of the aggregation tree
+				if qc, ok := e.SyncInfo.QC(); ok {
+					w.probe("c09-tree-qc-emitted")
+					if backed, why := w.orc.qcBacked(qc); !backed {
+						w.violate("C09", "C09/tree-unsound", nd, "%s completed a certificate for %s@%d in the aggregation tree that is not backed by a quorum: %s", nd, w.reg.sym(qc.BlockHash()), qc.View(), why)
+						return
+					}
+					c, p, _ := au.each(func(x *cert.Authority) error { return x.VerifyQuorumCert(qc) })
+					if !(c && p) {
+						w.violate("C09", "C09/reject-elsewhere", nd, "the certificate for %s completed by tree node %s does not verify at another replica", w.reg.sym(qc.BlockHash()), nd)
+					}
+				}
+				return
+			}
 			if e.FromNetwork || e.ID != nd.id {
 				return
 			}
@@ -366,6 +381,35 @@ func monC09(w *World) {
 			}
 		}
 		pendingOwn = keep
+	})
+	// every partial aggregate a tree node sends up verifies: all its participants really signed one block of that view
+	w.hooks.onContribution = append(w.hooks.onContribution, func(nd *Node, view hotstuff.View, sig hotstuff.QuorumSignature) {
+		if !nd.honest || w.viol != nil {
+			return
+		}
+		w.probe("c09-tree-contribution-checked")
+		if sig == nil {
+			w.probe("c09-tree-empty-contribution")
+			return
+		}
+		n := sig.Participants().Len()
+		ok := false
+		cands := 0
+		for i := len(w.reg.order) - 1; i >= 0; i-- {
+			b := w.reg.order[i].b
+			if b.View() != view {
+				continue
+			}
+			cands++
+			if len(w.orc.validSigners(sig, sameMsg(b.ToBytes()))) == n && n > 0 {
+				ok = true
+				break
+			}
+		}
+		if !ok {
+			w.violate("C09", "C09/tree-unsound", nd, "%s sends a partial aggregate for view %d naming %v up the tree, but those replicas did not all sign one block of that view (%d candidate blocks)",
+				nd, view, participantsOf(sig), cands)
+		}
 	})
 	w.hooks.atEnd = append(w.hooks.atEnd, func() {
 		pendingOwn = nil
